@@ -268,6 +268,91 @@ def reencoded_truncations(s):
     return out
 
 
+_B32CH = "qpzry9x8gf2tvdw0s3jn54khce6mua7l"
+
+
+def _polymod30(values):
+    """BIP-173 checksum polynomial (stdlib only)"""
+    gen, chk = (0x3b6a57b2, 0x26508e6d, 0x1ea119fa, 0x3d4233dd, 0x2a1462b3), 1
+    for v in values:
+        top = chk >> 25
+        chk = ((chk & 0x1ffffff) << 5) ^ v
+        for i in range(5):
+            if (top >> i) & 1:
+                chk ^= gen[i]
+    return chk
+
+
+def _polymod40(values):
+    """CashAddr checksum polynomial (stdlib only)"""
+    gen, chk = (0x98f2bc8e61, 0x79b76d99e2, 0xf33e5fb3c4, 0xae2eabe2a8, 0x1e4f43e470), 1
+    for v in values:
+        top = chk >> 35
+        chk = ((chk & 0x07ffffffff) << 5) ^ v
+        for i in range(5):
+            if (top >> i) & 1:
+                chk ^= gen[i]
+    return chk ^ 1
+
+
+# kind -> (separator, number of checksum symbols, prefix expansion, value the polynomial of (prefix ++ data ++ checksum) must take)
+_B32KINDS = {
+    "bech32": ("1", 6, lambda h: [ord(c) >> 5 for c in h] + [0] + [ord(c) & 31 for c in h], _polymod30, 1),
+    "bech32m": ("1", 6, lambda h: [ord(c) >> 5 for c in h] + [0] + [ord(c) & 31 for c in h], _polymod30, 0x2bc830a3),
+    "cashaddr": (":", 8, lambda h: [ord(c) & 31 for c in h] + [0], _polymod40, 0),
+}
+
+
+def _b32_spell(kind, hrp, payload):
+    """the text for these 5-bit payload symbols under a VALID checksum of the given kind"""
+    sep, nck, expand, poly, const = _B32KINDS[kind]
+    mod = poly(expand(hrp) + list(payload) + [0] * nck) ^ const
+    return hrp + sep + "".join(_B32CH[d] for d in list(payload) + [(mod >> 5 * (nck - 1 - i)) & 31 for i in range(nck)])
+
+
+def _b32_parse(s):
+    """(kind, hrp, payload symbols) when `s` is a Bech32 / Bech32m / CashAddr text whose checksum verifies, else None"""
+    t = s.lower()
+    if t != s and s.upper() != s:
+        return None
+    for kind, (sep, nck, expand, poly, const) in _B32KINDS.items():
+        i = t.rfind(sep)
+        if i < 1 or len(t) - i - 1 < nck or any(c not in _B32CH for c in t[i + 1:]) or any(not 33 <= ord(c) <= 126 for c in t[:i]):
+            continue
+        data = [_B32CH.index(c) for c in t[i + 1:]]
+        if poly(expand(t[:i]) + data) == const:
+            return kind, t[:i], data[:-nck]
+    return None
+
+
+def symbol_level_respellings(s):
+    """structure-aware, one layer below `reencoded_truncations`: if the text is a Bech32, Bech32m or CashAddr string, its payload is edited as
+    a list of 5-bit SYMBOLS and spelled again under a valid checksum (computed here from the published polynomials), so the damage passes the
+    checksum and reaches the 5-to-8-bit regrouping and the field splitting behind it: the payload cut at every symbol count (whole-byte and
+    ragged, down to one symbol and none), symbols appended (1 … 8 zeros, all-ones), non-zero padding bits, every value of the leading
+    version symbol, tiny hand-made payloads, the sibling checksum constant (Bech32 <-> Bech32m), and the upper-case spelling"""
+    got = _b32_parse(s)
+    if got is None:
+        return []
+    kind, hrp, pay = got
+    pays = [pay[:i] for i in range(len(pay) + 1)]
+    pays += [pay + [0] * k for k in range(1, 9)] + [pay + [31], pay + [31] * 2, pay + [0, 1], pay + pay]
+    if pay:
+        pays += [pay[:-1] + [pay[-1] ^ m] for m in (1, 2, 3, 4, 8, 16, 31)]
+        pays += [pay[:-2] + [31] for _ in (0,)] + [pay[:-1] + [pay[-1] | 1, 0], pay[:1], pay[:1] + [0], pay[:1] + [3], pay[:1] + [31, 31]]
+        pays += [[v] + pay[1:] for v in range(32) if v != pay[0]]
+        pays += [pay[:1] + pay[2:], pay[:1] + [0] + pay[1:], pay[1:], [0] + pay]
+    pays += [[0], [31], [0, 3], [0, 0], [1, 1, 1], [0] * 8, [31] * 13]
+    out = [_b32_spell(kind, hrp, q) for q in pays]
+    sibling = {"bech32": "bech32m", "bech32m": "bech32"}.get(kind)
+    if sibling:
+        out += [_b32_spell(sibling, hrp, q) for q in (pay, pay[:-1], pay + [0], pay[:1])]
+    out += [_b32_spell(kind, hrp, pay).upper(), _b32_spell(kind, hrp, pay[:-1]).upper()]
+    if _b32_spell(kind, hrp, pay) != s.lower():
+        raise HarnessError("independent %s checksum does not reproduce the text it was parsed from: %r" % (kind, s))
+    return list(dict.fromkeys(out))
+
+
 # characters whose lower() / upper() / casefold() changes the LENGTH of a string, or that are digits/spaces only in Unicode's eyes
 EXPANDERS = ["\u0130", "\u00df", "\u0149", "\u01f0", "\u0390", "\ufb01", "\u1e9e", "\u212a", "\u2163", "\u0661", "\uff11", "\u00b2", "\u3000", "\U0001d7d8"]
 
@@ -335,6 +420,7 @@ def str_inputs(rng, seeds, n):
     must = list(WEIRD) + list(seeds) + list(PUMPED_FIXED) + list(BOUNDARY_PHRASES)
     for s in seeds:
         must += reencoded_truncations(s)
+        must += symbol_level_respellings(s)
         must += case_expanding_variants(s)
         must += pumped_variants(s)
     out = []
